@@ -32,6 +32,16 @@ import (
 //	           duplication, local reordering (<= 3 positions, never across a
 //	           SYN/FIN), fragmentation; the tap omits nothing: exactness
 //	omission   the tap omits 1..2 data segments: prefix + skipped_bytes rule
+//	snaplen    the capture is taken with a snap length below the size of some
+//	           data frames (incl_len < orig_len, never cutting a header; no
+//	           fragmenting router): the cut-off bytes are missing from the
+//	           capture, same rule as omission
+//	nosyn      the tap omits the client's SYN, or SYN and SYN-ACK: streams are
+//	           exact and attributed to the right (address, port), whichever
+//	           side is labelled client
+//	large      a connection with segments of 30..64 KiB (40..260 KiB per
+//	           direction), one of them overtaken by the next one to three, or
+//	           (half of the runs) a data segment omitted by the tap
 //	reportonly reorderings the statement does not promise (SYN/FIN swaps, data
 //	           before SYN, FIN before earlier data, displacement up to 8) and
 //	           pcapng sections with a stated length: mismatches are counted
@@ -298,7 +308,8 @@ func hnetFirstDiff(got, want []byte) string {
 
 func (*hnet) Run(rc *core.RunCtx) *core.RunResult {
 	res := core.NewResult()
-	params := netsim.Params{Omission: rc.Config == "omission", Wide: rc.Config == "reportonly"}
+	params := netsim.Params{Omission: rc.Config == "omission", Wide: rc.Config == "reportonly",
+		Snaplen: rc.Config == "snaplen", NoSYN: rc.Config == "nosyn", Large: rc.Config == "large"}
 	key, flavour := "?", "?"
 	phase := "generator"
 	report := func(oracle, k, detail string) {
@@ -350,7 +361,7 @@ func (*hnet) Run(rc *core.RunCtx) *core.RunResult {
 	if HnetCaptureSink != nil {
 		HnetCaptureSink(flavour, capture)
 	}
-	if !params.Omission && !params.Wide && tr.Holes != 0 {
+	if !w.MayLoseBytes() && tr.Holes != 0 {
 		res.Violate("HARNESS", "generator", "tap-lost-bytes", "the capture lacks stream bytes although the tap omitted nothing")
 		return res
 	}
@@ -579,7 +590,19 @@ func hnetCheck(flows *hnetFlows, tr *netsim.Truth, params netsim.Params, key str
 		}
 		ct := &tr.Conns[i]
 		got := [2]*hnetDir{&flows.Conns[i].Client, &flows.Conns[i].Server}
-		// the client is the sender of the SYN
+		// the client is the sender of the SYN. When the capture does not begin
+		// with the client's SYN (the tap missed it) the statement does not say
+		// which side is to be called client: then only the attribution of the
+		// bytes to endpoint address and port is checked, whichever way round
+		// the two directions are labelled
+		if !ct.FirstIsSYN && !params.Wide {
+			res.Extra["first_packet_not_client_syn"]++
+			a, b := &ct.Dirs[0], &ct.Dirs[1]
+			if got[0].IP == ipString(b.IP) && got[0].Port == int(b.Port) && got[1].IP == ipString(a.IP) && got[1].Port == int(a.Port) {
+				got[0], got[1] = got[1], got[0]
+				res.Extra["first_sender_labelled_client"]++
+			}
+		}
 		endpointsOK := true
 		for s := 0; s < 2; s++ {
 			d := &ct.Dirs[s]
